@@ -260,7 +260,11 @@ loop:
 	case <-done:
 	case <-time.After(30 * time.Second):
 		report("goroutines did not stop within 30 s after the stop signal")
-		return
+		// the blocked goroutines still own the counters and the problem list: hand back private copies
+		mu.Lock()
+		ps := append([]string{}, problems...)
+		mu.Unlock()
+		return ps, stats{atomic.LoadInt64(&st.frames), atomic.LoadInt64(&st.api), atomic.LoadInt64(&st.purges), atomic.LoadInt64(&st.notifs)}
 	}
 	// quiescent point: table invariants
 	if inv := tableInvariant(s); inv != "" {
